@@ -325,6 +325,8 @@ def worker_main(module, tier: str, seed: int, shard: int, nshards: int, out: Pat
                     part.teardown(ctx)
             for v in found:
                 ctx.violations.append(_viol_dict(v))
+            # what is known so far survives a time limit hit in a later part
+            _dump(ctx, dict(result, partial=True), t0, out)
     except HarnessError as e:
         result = {"ok": False, "error": f"HarnessError: {e}", "trace": traceback.format_exc()}
     except BaseException as e:  # noqa
@@ -336,6 +338,11 @@ def worker_main(module, tier: str, seed: int, shard: int, nshards: int, out: Pat
         except Exception:
             pass
         ctx.cleanup()
+    _dump(ctx, result, t0, out)
+
+
+def _dump(ctx, result, t0, out):
+    result = dict(result)
     result.update(
         evaluations=ctx.evaluations,
         nt_digests=sorted(ctx.nt_digests),
@@ -348,7 +355,9 @@ def worker_main(module, tier: str, seed: int, shard: int, nshards: int, out: Pat
         extra=ctx.extra,
         wall_s=time.time() - t0,
     )
-    out.write_text(json.dumps(result, default=repr))
+    tmp = out.with_suffix(".tmp")
+    tmp.write_text(json.dumps(result, default=repr))
+    tmp.replace(out)
 
 
 def _viol_dict(v: Violation, source: Optional[str] = None):
@@ -422,6 +431,12 @@ def parent_main(module, tier: str, seed: int, nshards: int, timeout: float) -> i
             except subprocess.TimeoutExpired:
                 _kill_group(p)
                 errors.append(f"shard {shard}: timeout after {timeout}s")
+                if out.exists():
+                    # the parts completed before the limit count (a violation found is a violation)
+                    try:
+                        results.append(json.loads(out.read_text()))
+                    except Exception:
+                        pass
                 continue
             finally:
                 log.close()
